@@ -58,6 +58,8 @@ rc, o = sh("git -C /repo status --porcelain")
 if o.strip():
     print("/repo not clean:", o); sys.exit(2)
 rc, o = sh("git -C /repo apply %s" % os.path.join(dst, "patch.diff"))
+if rc != 0:
+    print("patch does not apply to /repo (the worktree is at another commit?):", o); sys.exit(2)
 results = {}
 EVBAK = {p: open('/verif/evidence/%s.json' % p).read() for p in props if os.path.exists('/verif/evidence/%s.json' % p)}
 try:
